@@ -54,6 +54,17 @@ void h_unary(void) {
     conv_block(t1, s1, 0, VType_UNKNOWN_TYPE, Sign_UNKNOWN_SIGN, 0, &pl, &rt, &rs);
     __CPROVER_assert(rt == (t1 < VType_INT ? VType_INT : t1) && (t1 < VType_INT ? rs == Sign_SIGNED : rs == s1), "a single operand is integer-promoted and otherwise unchanged");
 }
+void h_incdec(void) {
+    struct Platform pl; pl.sizeof_int = 4; pl.sizeof_long = nondet_size_t(); pl.sizeof_long_long = 8; __CPROVER_assume(pl.sizeof_long == 4 || pl.sizeof_long == 8);
+    enum VType t1 = (enum VType)nondet_int(); enum Sign s1 = (enum Sign)nondet_int();
+    __CPROVER_assume(t1 >= VType_BOOL && t1 <= VType_LONGLONG && s1 >= Sign_UNKNOWN_SIGN && s1 <= Sign_UNSIGNED && (t1 < VType_INT || s1 != Sign_UNKNOWN_SIGN));
+    enum VType rt; enum Sign rs;
+    g_is_incdec = 1;
+    conv_block(t1, s1, 0, VType_UNKNOWN_TYPE, Sign_UNKNOWN_SIGN, 0, &pl, &rt, &rs);
+    g_is_incdec = 0;
+    /* C11 6.5.2.4p2 / 6.5.3.1: the result of ++ and -- has the (unqualified) type of the operand - no integer promotion */
+    __CPROVER_assert(rt == t1 && rs == s1, "the result of ++ / -- has the type and signedness of its operand");
+}
 void h_size(void) {
     struct Platform pl; pl.sizeof_int = nondet_size_t(); pl.sizeof_long = nondet_size_t(); pl.sizeof_long_long = nondet_size_t(); enum VType t = (enum VType)nondet_int();
     size_t r = getIntegerTypeSize(t, &pl);
@@ -108,9 +119,13 @@ def build(ctx):
         (r'\(vt2 &&', '(has_vt2 &&', 0, 1),
         (r'\bmSettings\.platform\b', 'platform', 0),
         (r'const size_t lowerSize', 'const size_t lowerSize', 0),
+        (r'\bparent->tokType\(\)\s*!=\s*Token::eIncDecOp\b', '!g_is_incdec', 0, 1),      # the parent is ++ / -- (harness flag)
     ], ID + ".conv"); n += k
+    if re.search(r'\bparent\b', extract.mask(t)):
+        raise extract.ExtractError("K23: a use of `parent` in the conversion block was not lowered: %r" % re.findall(r'[^\n]*\bparent\b[^\n]*', extract.mask(t))[:2])
     if re.search(r'\bvt[12]\b(?!_)', extract.mask(t)):
         raise extract.ExtractError("K23: a use of vt1/vt2 was not lowered: %r" % t.strip()[:300])
+    out.append("_Bool g_is_incdec;   /* the operator is ++ or -- (parent->tokType() == Token::eIncDecOp) */\n")
     out.append("void conv_block(enum VType vt1_type, enum Sign vt1_sign, _Bool has_vt2, enum VType vt2_type, enum Sign vt2_sign, _Bool ternary, const struct Platform *platform, enum VType *rt, enum Sign *rs)\n{\n%s\n    *rt = vt.type; *rs = vt.sign;\n}\n"
                % extract.strip_comments(t))
     kb.rules_fired = n
@@ -119,6 +134,7 @@ def build(ctx):
     kb.ctext = text + HARNESS
     kb.job("binary", "h_conv", note="loop-free region: complete in both operand types and signs and in the platform sizes (int 4; long 4 or 8; long long 8)")
     kb.job("unary", "h_unary", note="loop-free: complete")
+    kb.job("incdec", "h_incdec", note="loop-free: complete; the parent operator is ++ / --")
     kb.job("getIntegerTypeSize", "h_size", note="loop-free: complete")
     kb.job("cover", "h_cover", kind="cover")
     kb.assumptions += ["region interface: (type, sign) of both operands, presence of the second operand, ternary flag, platform; originalTypeName bookkeeping is dropped",
